@@ -8,18 +8,22 @@ package microsoft
 // ---------------------------------------------------------------- parse
 //
 // A parser of untrusted bytes must not panic and must not allocate more than its input
-// justifies (every make/append at most len(byteData) elements). TWO OBLIGATIONS ARE
-// EXPECTED TO FAIL on the code as it is (defect S5, demonstrated in
-// /verif/notes/revocation.md; implicit obligations cannot carry a defect_ tag):
-//   parse#nil.1    cert.SerialNumber after the ignored error of x509.ParseCertificate
-//   parse#alloc.1  make([]byte, len) with the 32-bit length field taken from the input
-// parse#alloc.2-4 (the appends) and termination are true but not provable with the shared
-// contract of encoding/binary.Read, which does not model the reader's position (each
-// appended element consumed at least 4 input bytes; an exhausted reader leaves id == 0 and
-// ends the loop). `modifies all`: the loop summary of govc cannot keep the frame across
-// binary.Read into loop-local variables.
+// justifies (C01). Both obligations that state this at the two critical sites FAILED before
+// /repo commit 373091f (defect S5 in /verif/notes/revocation.md) and are proved now:
+//   parse#nil.*              cert.SerialNumber / cert.Issuer are read only after the error of
+//                            x509.ParseCertificate has been checked
+//   parse#at@binary.Read#6   the buffer made for a certificate element, make([]byte, len) with
+//                            the 32-bit length field of the input, is no longer than the input
+//                            (len <= bytesReader.Len() <= len(byteData))
+// (the allocation bound is stated at this one site instead of an `alloc` clause: a bound for
+// the appends needs the position of the reader, which the shared contract of
+// encoding/binary.Read does not model - each appended element consumed at least 12 input
+// bytes; for the same reason there is no `terminates` clause: an exhausted reader leaves
+// id == 0 and ends loop 1). `modifies all`: the loop summary of govc does not keep the frame
+// across binary.Read into loop-local variables; parse only writes objects it allocated.
 //@ func parse
-//@   alloc <= len(byteData)
+//@   at call encoding/binary.Read#6 assert len(certChain) <= len(byteData)
+//@   loop 1 invariant ghost.rdSize(bytesReader, len(byteData))
 //@   loop 2 invariant disallowed != nil && disallowed.IssuerLists != nil && fresh(disallowed) && fresh(disallowed.IssuerLists)
 //@   ensures result1 == nil ==> result0 != nil && fresh(result0)
 //@   ensures result1 != nil ==> result0 == nil
@@ -29,27 +33,48 @@ package microsoft
 //
 // ghost.nameString(n, k): k is the string form n.String() of the distinguished name n (an
 // uninterpreted functional relation, see /verif/extern/revocation.contracts).
-//
+// ghost.bigEq(x, y): the integers stored at x and y are equal (decided by (*big.Int).Cmp,
+// /verif/extern/bigint.contracts).
+// ghost.filedAt(d, k, l): "l is the (non-nil) list filed in d.IssuerLists under key k". The
+// relation is DEFINED by the precondition graph(d) - it holds exactly for the pairs of the
+// map - and only gives the lists a name: a map lookup is an if-then-else term, which may not
+// occur in a quantifier trigger, so every quantifier over list positions ranges over a list
+// named by a variable l with filedAt(d, k, l).
+//@ pred listOf(d, k) = d.IssuerLists[k]
+//@ pred graph(d) = forallv(k, string, listOf(d, k) != nil ==> ghost.filedAt(d, k, listOf(d, k))) && forallv(k, string, forallv(l, *IssuerList, ghost.filedAt(d, k, l) ==> l != nil && l == listOf(d, k)))
 // Representation invariant of a parsed store: every issuer list filed in the map holds
 // non-nil entries with non-nil serial numbers (what parse builds from parsed certificates).
-// ghost.filed is an auxiliary, otherwise unconstrained relation: okStore(d) says that some
-// set of lists contains every list of the map and consists of well-formed lists only, i.e.
-// exactly "every list of the map is well formed" (take the set of the map's values); the
-// contract holds for every such relation, in particular for that set.
-// (Quantifiers over list positions are written over i+1 so that their triggers match the
-// counter of a range loop; "exists" is written as a negated forall to carry a trigger.)
-//@ pred okList(l) = forall(i, -1, len(l.Entries) - 1, l.Entries[i+1] != nil && l.Entries[i+1].SerialNumber != nil, l.Entries[i+1])
-//@ pred entryOf(l, r) = !forall(i, -1, len(l.Entries) - 1, l.Entries[i+1] != r, l.Entries[i+1])
-//@ pred okStore(d) = d != nil && forallv(k, string, d.IssuerLists[k] != nil ==> ghost.filed(d, d.IssuerLists[k])) && forallv(l, *IssuerList, ghost.filed(d, l) ==> okList(l))
+// Quantifiers over list positions: spec.at is the identity (/verif/specs/revocation.smt2), so
+// ix(i) is true; it only plants the trigger term at(i) (index arithmetic inside a trigger is
+// matched syntactically by the solver and is unreliable). Existentials are written as negated
+// universals so that they carry the trigger too.
+//@ pred ix(i) = spec.at(i) == i
+//@ pred okList(l) = forall(i, 0, len(l.Entries), ix(i) ==> l.Entries[i] != nil && l.Entries[i].SerialNumber != nil, spec.at(i))
+//@ pred okStore(d) = d != nil && graph(d) && forallv(k, string, forallv(l, *IssuerList, ghost.filedAt(d, k, l) ==> okList(l)))
+//@ pred sameSerial(e, cert) = ghost.bigEq(e.SerialNumber, cert.SerialNumber)
+// "the first n elements of l do not have cert's serial number" / "some element of l has it" /
+// "r is the first element of l that has it": r has it, and every element that has it stands
+// at or behind an occurrence of r.
+//@ pred noHit(l, cert, n) = forall(j, 0, n, ix(j) ==> !sameSerial(l.Entries[j], cert), spec.at(j))
+//@ pred revokes(l, cert) = !noHit(l, cert, len(l.Entries))
+//@ pred occursUpTo(l, r, n) = !forall(i, 0, n, ix(i) ==> l.Entries[i] != r, spec.at(i))
+//@ pred firstHit(l, cert, r) = sameSerial(r, cert) && forall(j, 0, len(l.Entries), ix(j) && sameSerial(l.Entries[j], cert) ==> occursUpTo(l, r, j+1), spec.at(j))
 
-// Check reports only entries of the list filed under the certificate's issuer name
-// ([issuer]), nothing when there is no such list ([nolist]). That the reported entry is the
-// FIRST one whose serial number equals the certificate's, and that nil means there is none,
-// needs a functional contract of (*big.Int).Cmp: see /verif/notes/revocation.md.
+// Check(disallowed, cert) - "by issuer name and serial" (C15). With k the string form of
+// cert's issuer name:
+// [nolist] nothing is reported when no list is filed under k;
+// [exact_listed], [exact_only] when l is filed under k, an entry is reported exactly when l
+//          lists a serial number equal to cert's (the two directions; an equivalence with a
+//          quantifier on one side is not skolemised well by the solver);
+// [which]  the reported entry is the FIRST element of l with that serial number.
 //@ func Check
+//@   uses perreturn
 //@   requires okStore(disallowed) && cert != nil && cert.SerialNumber != nil
-//@   ensures [issuer] forallv(k, string, ghost.nameString(cert.Issuer, k) && result != nil ==> disallowed.IssuerLists[k] != nil && !forallv(l, *IssuerList, !(l == disallowed.IssuerLists[k] && entryOf(l, result))))
-//@   ensures [nolist] forallv(k, string, ghost.nameString(cert.Issuer, k) && disallowed.IssuerLists[k] == nil ==> result == nil)
-//@   ensures [member] result != nil ==> !forallv(l, *IssuerList, !(ghost.filed(disallowed, l) && entryOf(l, result)))
-//@   ensures [empty]  forallv(k, string, disallowed.IssuerLists[k] == nil) ==> result == nil
+//@   loop 1 invariant ix(it) && forallv(l, *IssuerList, ghost.filedAt(disallowed, issuerStr, l) ==> noHit(l, cert, it))
+//@   ensures [nolist] forallv(k, string, ghost.nameString(cert.Issuer, k) && listOf(disallowed, k) == nil ==> result == nil)
+//@   ensures [exact_listed] forallv(k, string, forallv(l, *IssuerList, ghost.nameString(cert.Issuer, k) && ghost.filedAt(disallowed, k, l) && result == nil ==> noHit(l, cert, len(l.Entries))))
+//@   ensures [exact_only]   forallv(k, string, forallv(l, *IssuerList, ghost.nameString(cert.Issuer, k) && ghost.filedAt(disallowed, k, l) && result != nil ==> revokes(l, cert)))
+//@   ensures [which]  forallv(k, string, forallv(l, *IssuerList, ghost.nameString(cert.Issuer, k) && ghost.filedAt(disallowed, k, l) && result != nil ==> firstHit(l, cert, result)))
+//@   ensures [empty]  forallv(k, string, listOf(disallowed, k) == nil) ==> result == nil
+//@   modifies nothing
 //@   terminates
